@@ -10,6 +10,7 @@ WORK = os.path.join(VERIF, 'work')
 DRV = os.path.join(LEAN, '.lake', 'build', 'bin', 'mqttdrv')
 CORR = os.path.join(HARNESS, 'corr')
 FACTS = os.path.join(LEAN, 'Mqtt', 'Generated', 'Facts.lean')
+XLATE = os.path.join(LEAN, 'Mqtt', 'Generated', 'Xlate.lean')
 
 GOENV = dict(os.environ, GOFLAGS='-mod=mod', GOPROXY='off', GOSUMDB='off', GOTOOLCHAIN='local',
              CGO_ENABLED=os.environ.get('CGO_ENABLED', '0'))
